@@ -263,6 +263,21 @@ def _blockify(clients: Iterable[Tuple[ClientId, Iterable[BatchExample],
         client_input=[client_input for _, _, client_input in block])
 
 
+def _stack_for_pmap(xs):
+  """Stacks a list of same-structured pytrees along a new leading device axis.
+
+  Replacement for the removed ``jax.device_put_sharded``: ``jax.pmap`` shards the
+  leading axis of its inputs over the devices itself.
+  """
+  return jax.tree_util.tree_map(lambda *leaves: jnp.stack(leaves), *xs)
+
+
+def _replicate_for_pmap(x, n):
+  """Replacement for the removed ``jax.device_put_replicated``."""
+  return jax.tree_util.tree_map(
+      lambda leaf: jnp.stack([jnp.asarray(leaf)] * n), x)
+
+
 class ForEachClientPmapBackend(ForEachClientBackend):
   """for_each_client backend using jax.pmap for parallelization."""
 
@@ -292,9 +307,9 @@ class ForEachClientPmapBackend(ForEachClientBackend):
       devices = self._devices
     block_size = len(devices)
 
-    p_client_init = jax.pmap(client_init)
+    p_client_init = jax.pmap(client_init, devices=devices)
 
-    @functools.partial(jax.pmap, donate_argnums=0)
+    @functools.partial(jax.pmap, donate_argnums=0, devices=devices)
     def p_client_step(state, batch, mask):
       next_state, step_result = client_step(state, batch)
       next_state = jax.tree_util.tree_map(
@@ -305,24 +320,24 @@ class ForEachClientPmapBackend(ForEachClientBackend):
       )
       return next_state, step_result
 
-    p_client_final = jax.pmap(client_final, donate_argnums=1)
+    p_client_final = jax.pmap(client_final, donate_argnums=1, devices=devices)
 
     def run_block(p_shared_input, block):
-      p_client_input = jax.device_put_sharded(block.client_input, devices)
+      p_client_input = _stack_for_pmap(block.client_input)
       p_state = p_client_init(p_shared_input, p_client_input)
       p_step_results = []
       for p_batch, p_mask in block.masked_batches:
         p_state, p_step_result = p_client_step(
             p_state,
-            jax.device_put_sharded(p_batch, devices),
-            jax.device_put_sharded(p_mask, devices),
+            _stack_for_pmap(p_batch),
+            _stack_for_pmap(p_mask),
         )
         p_step_results.append(p_step_result)
       p_client_output = p_client_final(p_shared_input, p_state)
       return p_client_output, p_step_results
 
     def run(shared_input, clients):
-      p_shared_input = jax.device_put_replicated(shared_input, devices)
+      p_shared_input = _replicate_for_pmap(shared_input, block_size)
       for block in _blockify(clients, block_size):
         p_client_output, p_step_results = run_block(p_shared_input, block)
         # Split outputs and release buffers as we go.
